@@ -302,6 +302,11 @@ func (g *gen) list(c ctx, level int) *Node {
 			g.maybeAttrs(li, false)
 		}
 		n.Kids = append(n.Kids, li)
+		// malformed but common: the sub-list is a child of the list itself, not of an item
+		// (<ul><li>a</li><ul><li>b</li></ul></ul>); the parser keeps it there
+		if level < 3 && g.want("list-in-list", g.o.Lists && g.o.Spelling, g.chance(9, "list-in-list")) {
+			n.Kids = append(n.Kids, g.list(c, level+1))
+		}
 	}
 	if g.o.Hidden && g.chance(15, "list-comment") {
 		g.tok++
